@@ -7,6 +7,11 @@ ALL = ["C%02d" % i for i in range(1, 21)]
 
 # id -> (level category, engine, technique, level text, level note, design ref)
 CLAIMED = {
+    "C03": ("exploration", "I",
+            "bounded-exhaustive enumeration: publisher side every root (10 CIDs) x topic (4) x key type (4) through the real Publisher handler; client side every single-byte substitution, every truncation and 14 field-level alterations of valid encoded heads (key types x topics x discovery/plain HTTP) served verbatim to the real Syncer.GetHead over an in-memory network, each alteration class also through Subscriber.SyncAdChain; judged by an independent reference validator",
+            "GetHead may return a CID only when the reference validator (generic DAG-JSON decode, libp2p signature check over cid||topic, signer = expected peer) accepts exactly that CID; untouched heads must be accepted; on the subscriber path a rejected head must cause no block request, hook call, latest-sync change or event. Enumerating all byte and field alterations reaches the omitted-comparison and unsigned-topic cases that one wrong-peer sample does not.",
+            "Reference validator and libp2p crypto are trusted; alterations that change no value (as judged by the reference) need not be rejected.",
+            "DESIGN.md 6/C03"),
     "C02": ("fault_enumeration", "F",
             "fault enumeration over the real sync path: at every block-request position of a chain, for each multihash function (quick: sha2-256, truncated sha2-256, identity; thorough: 7 functions, segmented and unsegmented), the body is replaced by every single-bit flip, every truncation (consistent and original Content-Length), appended bytes, every other valid block, empty body, re-serialised node; followed by a healthy and a further tampered sync on the same subscriber with a store-wide audit after each",
             "After every run every key/value of the destination store is re-hashed with the key's own multihash code and length, hook calls and counts are checked against verified store content, and a needed tampered block must fail the sync and leave the latest-synced value unset. Enumerating every position and body kind, including the identity function where a partial digest comparison becomes visible, is what one scripted 'fish' body cannot do.",
